@@ -27,3 +27,85 @@ def run(ctx):
         else:
             ok += 1
     ctx.count("C03-oracle", len(lines), [], agree=ok, sample={"doc": lines[5][:160], "trace": exp[5][:160]})
+    run_limits(ctx)
+
+
+# ---------------------------------------------------------------------------
+# representations the format allows and the Writer never emits, at the edge of the reader's own limits
+# ---------------------------------------------------------------------------
+BVM = [0xE0, 1, 0, 0xEA]
+K_DECEXP = "binary-decimal-exponent-beyond-int32-rejected"
+K_SYMLONG = "binary-symbol-value-longer-than-8-bytes-rejected"
+K_VARLONG = "binary-varuint-longer-than-10-bytes-rejected"
+K_PADSID = "binary-nop-pad-under-undefined-field-sid-rejected"
+_limit_class = {}
+
+
+def padded_varuint(v, n):
+    """v as a VarUInt of exactly n bytes (leading zero septets)"""
+    g = iongen.varuint(v)
+    return [0] * (n - len(g)) + g
+
+
+def limit_docs():
+    docs = []
+    # decimal exponents outside int32 (the value is exact: a coefficient and any integer exponent)
+    for e in (1 << 31, (1 << 31) + 5, 1 << 40, -(1 << 31) - 1, -(1 << 45)):
+        for coef in ([0x01], []):
+            body = iongen.varint(e) + coef
+            docs.append((K_DECEXP, [0x50 | len(body)] + body))
+    # in-range exponents spelled with padded VarInts stay readable: no class
+    for e in (0, 5, -5, (1 << 31) - 1, -(1 << 31)):
+        g = iongen.varint(e)
+        docs.append((None, [0x50 | (len(g) + 1)] + g + [0x01]))
+    # a symbol value is a UInt of any length: leading zero bytes beyond eight
+    for n in (9, 10, 13):
+        for sid in (4, 1, 9):
+            body = [0] * (n - 1) + [sid]
+            docs.append((K_SYMLONG, [0x70 | n] + body if n < 14 else [0x7E] + iongen.varuint(n) + body))
+    for n in (2, 5, 8):
+        docs.append((None, [0x70 | n] + [0] * (n - 1) + [4]))
+    # VarUInt length fields with leading zero septets: up to ten bytes are read, longer ones are not
+    for n in (2, 5, 9, 10):
+        docs.append((None, [0x8E] + padded_varuint(3, n) + [0x61, 0x62, 0x63]))
+        docs.append((None, [0xBE] + padded_varuint(2, n) + [0x21, 0x01]))
+    for n in (11, 12, 20):
+        docs.append((K_VARLONG, [0x8E] + padded_varuint(3, n) + [0x61, 0x62, 0x63]))
+        docs.append((K_VARLONG, [0x2E] + padded_varuint(1, n) + [0x01]))
+        docs.append((K_VARLONG, [0xBE] + padded_varuint(2, n) + [0x21, 0x01]))
+    # NOP padding inside a struct: the field name of a pad is ignored, whatever its ID
+    for sid in (0, 4, 9):
+        docs.append((None, [0xD2, 0x80 | sid, 0x00]))
+        docs.append((None, [0xD6, 0x80 | sid, 0x01, 0xFF, 0x84, 0x21, 0x07]))
+    for sidb in ([0xFF], [0x07, 0xE8], [0x00, 0xFF]):
+        docs.append((K_PADSID, [0xD0 | (len(sidb) + 1)] + sidb + [0x00]))
+        docs.append((K_PADSID, [0xD0 | (len(sidb) + 5)] + sidb + [0x01, 0xFF, 0x84, 0x21, 0x07]))
+    return docs
+
+
+def run_limits(ctx):
+    docs = limit_docs()
+    hexes = [iongen.hx(BVM + d) for _, d in docs]
+    spec = binlib.sdecode_many(hexes)
+    lines = ["btrav 0 " + h for h in hexes]
+    for (k, _), ln in zip(docs, lines):
+        _limit_class[ln] = k
+    mo, go = ctx.correspond("K2-binreader-limits", lines, canon=binlib.canon_trace_full, nontrivial=lambda ln, m: True)
+    ok = 0
+    for (k, d), ln, sp, g in zip(docs, lines, spec, go):
+        if oracle_silent(ctx, "C03-limits", ln, sp):
+            continue
+        if sp is None:
+            ctx.notes.append("limit document not valid for the specification decoder (generator error?): " + ln)
+            continue
+        accepted = g.endswith("F e0 F e0 F e0")
+        if not accepted:
+            ctx.fail("property", "C03-limits", ln, "valid encoding (the specification decoder reads '%s') but the Reader answers '%s'" % (sp[:120], g[-60:]), k)
+        else:
+            ok += 1
+    ctx.count("C03-limits", len(lines), lines, agree=ok)
+
+
+def classify_case(line, m=None, g=None):
+    return _limit_class.get(line)
+
